@@ -23,7 +23,7 @@ NA = [
 CHECKS = {
     "C03": dict(
         category="exploration",
-        text="Hostile-channel facet of C03: corpus files (well- and ill-formed, all encodings) and synthetic documents containing every escape, directive and scalar form are pushed through a simulated channel that injects 0-5 seeded content faults (truncation, bit flip, overwrite from an indicator alphabet, dropped / duplicated / stuttered / swapped ranges, garbage, BOM insertion and removal, odd-length UTF-16, encoding confusion, look-alike transcoding of digits/blanks/letters/indicators, numeric-field confusion (a digit of an escape / URI escape / version / indentation indicator replaced by a sign, blank, underscore, radix letter or non-ASCII digit), lone surrogates on the text channel, nesting bursts <= 150, and - in 4% of the runs - pure indicator-rich noise) at positions biased into tokens with in-flight scanner state, delivered in memory and through SimReader with seeded read-size schedules, x scan / parse / compose / compose_all x both back-ends. Oracle: result or YAMLError, termination (20 s watchdog per library call, read budget, worker liveness; a suspected hang is re-executed in an isolated process with the limit x10 before it is reported), marks and ReaderError positions inside the input. Inputs whose nesting estimate exceeds 300 are counted as outside the property's quantifier and not executed. The fault-free configuration runs separately (about 10% of runs). Inputs that are not reachable as a corrupted corpus document are not sampled and not claimed.",
+        text="Hostile-channel facet of C03: corpus files (well- and ill-formed, all encodings) and synthetic documents containing every escape, directive and scalar form are pushed through a simulated channel that injects 0-5 seeded content faults (truncation, bit flip, overwrite from an indicator alphabet, dropped / duplicated / stuttered / swapped ranges, garbage, BOM insertion and removal, odd-length UTF-16, encoding confusion, look-alike transcoding of digits/blanks/letters/indicators, numeric-field confusion (a digit of an escape / URI escape / version / indentation indicator replaced by a sign, blank, underscore, radix letter or non-ASCII digit), lone surrogates on the text channel, nesting bursts <= 150, and - in 4% of the runs - pure indicator-rich noise) at positions biased into tokens with in-flight scanner state, corruption or lengthening of numeric fields, record-level duplication; corpus extended by small quoted-scalar layouts, recursive / alias mini-documents, surrogate escapes and near-miss numerics), delivered in memory and through SimReader with seeded read-size schedules, x scan / parse / compose / compose_all x both back-ends. Oracle: result or YAMLError, termination (20 s watchdog per library call, read budget, worker liveness; a suspected hang is re-executed in an isolated process with the limit x10 before it is reported), marks and ReaderError positions inside the input. Inputs whose nesting estimate exceeds 300 are counted as outside the property's quantifier and not executed. The fault-free configuration runs separately (about 10% of runs). Inputs that are not reachable as a corrupted corpus document are not sampled and not claimed.",
         design_ref="DESIGN.md section 3, C03",
         note="Trusted: the fault applicator, SimReader, the loose mark bounds. Known findings K3 (LibYAML binding, str with a lone surrogate) and K4 (LibYAML accepts URI escapes that are not valid UTF-8, the binding lets UnicodeDecodeError escape) are matched narrowly. Two genuine defects found by this check were repaired by fix: commits (known_findings.txt). RecursionError from nesting bursts is out of the property's scope and only counted.",
         technique="deterministic simulation of a faulty input channel: seeded content faults + read-size schedules, class-membership and termination oracle",
